@@ -363,7 +363,27 @@ def check_huge(case):
     return OK(True, "huge", key=str(hash(p)))
 
 
+def check_std_multiset(case):
+    """Standardisation of every multiset of values: all multisets of size n over an alphabet of
+    n letters are swept (a shortcut that recognises 'already a permutation' by summary
+    statistics can only be fooled by particular multisets), each in several arrangements and
+    shifted; ties are broken left to right."""
+    ms = list(case)
+    n = len(ms)
+    arrangements = [ms, ms[::-1], ms[::2] + ms[1::2], ms[n // 2 :] + ms[: n // 2]]
+    for arr in arrangements:
+        for shift in (0, -3, 11):
+            seq = [v + shift for v in arr]
+            got = Perm.to_standard(seq)
+            if tuple(got) != ref.std(seq) or not ref.is_perm(tuple(got)):
+                return BAD("to_standard_multiset", {"seq": seq, "got": list(got), "want": list(ref.std(seq))})
+    if tuple(Perm.to_standard(tuple(ms))) != ref.std(ms) or tuple(Perm.to_standard(iter(ms[::-1]))) != ref.std(ms[::-1]):
+        return BAD("to_standard_multiset_container", {"seq": ms})
+    return OK(len(set(ms)) < n, "with_ties" if len(set(ms)) < n else "distinct", key="ms" + str(ms))
+
+
 CHECKS = {
+    "std_multiset": check_std_multiset,
     "huge": check_huge,
     "level": check_level,
     "notations": check_notations,
@@ -485,6 +505,17 @@ def shard_levels(acc, shard, nshards, max_n):
             acc.record("mesh_level", check_mesh_level, k)
 
 
+def shard_multisets(acc, shard, nshards, max_n):
+    import itertools
+
+    i = 0
+    for n in range(1, max_n + 1):
+        for ms in itertools.combinations_with_replacement(range(n), n):
+            if i % nshards == shard:
+                acc.record("std_multiset", check_std_multiset, list(ms))
+            i += 1
+
+
 def shard_generated(acc, shard, nshards, n_rank, n_std, n_hist, n_val, n_mesh, filler):
     # notations beyond the exhaustive lengths: every length 8..12, with the boundary length 10
     # (the last one printed in compact digit form) drawn twice as often
@@ -507,6 +538,7 @@ FUZZ = {"standardise": ("standardise", seq_cases), "validated": ("validated", va
 
 
 def run(acc, tier):
+    engine.pmap(acc, shard_multisets, extra=((8,) if tier == "quick" else (10,)))
     if tier == "quick":
         engine.pmap(acc, shard_levels, extra=(7,))
         engine.pmap(acc, shard_generated, extra=(200, 300, 40, 150, 150, 40))
